@@ -214,6 +214,8 @@ static int cmd_bpm(const char* path, int which)
                 sb_kint(&b,"k",k/2);
                 sb_kint(&b,"n",tn);
                 sb_kint(&b,"m",pn);
+                sb_key(&b,"t"); sb_ints(&b, rows[k], tn);
+                sb_key(&b,"p"); sb_ints(&b, rows[k+1], pn);
                 sb_kint(&b,"block", bpm_block(t,p,tn,pn));
                 if(which >= 1 && pn <= 63 && pn >= 1){ sb_kint(&b,"w64",(int)bpm(t,p,tn,pn)); }
 #ifdef HAVE_AVX2
